@@ -70,7 +70,7 @@ prop("C03",
 
 PROG_BOUNDS = ("fresh file on the simulated disk (page size 1024, 64 pages or unbounded), 2 committed pages, "
                "transactions of <= 2-3 symbolic operations (alloc, alloc-without-write, allocN(2), free, free-new, overwrite, Tx.Flush, CheckpointWAL), "
-               "symbolic endings and content bytes; variants: plain / InitMetaArea=4 / overflow area enabled / unbounded / InitMetaArea=4+WALLimit=1")
+               "symbolic endings and content bytes; variants: plain / InitMetaArea=4 / overflow area enabled / unbounded / InitMetaArea=4+WALLimit=1 / MaxSize not page aligned / InitMetaArea=1")
 PROG_OUT = ("longer transactions and histories, page sizes other than 1024, map iteration orders other than insertion order, "
             "background-writer batchings other than 'writer runs when the transaction blocks'")
 
@@ -125,12 +125,12 @@ prop("C04", bounds=PROG_BOUNDS, outside=PROG_OUT,
                H("txfile.VerifRegionRoundTrip", "free-list entries survive serialization (a wrongly decoded region would make live pages allocatable after reopen)", "id<2^55, count in [1,2^32)"),
                H("txfile.VerifProgAbort", "after Rollback / Close / a Commit that fails with an injected I/O error, follow-up allocations own their pages", "nops=2, pre=1",
                  quick={"params": {"nops": 2, "pre": 1}}, thorough={"params": {"nops": 2, "pre": 2}, "max_paths": 300000, "budget": "1200s"})] + variants("txfile.VerifProgOwn", "every id returned by Alloc/AllocN is >= 2, not live, not freed-but-committed, not internal; ownership partition after every commit",
-                        {"nops": 3, "ntx": 1}, {"nops": 2, "ntx": 2}, quick_vs=(0, 1)))
+                        {"nops": 3, "ntx": 1}, {"nops": 2, "ntx": 2}, vs=(0, 1, 2, 3, 4, 6), quick_vs=(0, 1, 6)))
 
 # ------------------------------------------------------------------ C11
 prop("C11", bounds=PROG_BOUNDS, outside=PROG_OUT,
      harnesses=variants("txfile.VerifProgOwn", "allocatable + live + meta area + 2 == max pages, extent <= max, FileStats == model after every commit",
-                        {"nops": 3, "ntx": 1}, {"nops": 2, "ntx": 2}, vs=(0, 1, 4, 5), quick_vs=(0, 5)) + [FREECYCLE, ALLOCFREE_REOPEN,
+                        {"nops": 3, "ntx": 1}, {"nops": 2, "ntx": 2}, vs=(0, 1, 4, 5, 6), quick_vs=(0, 5, 6)) + [FREECYCLE, ALLOCFREE_REOPEN,
          H("txfile.VerifRegionRoundTrip", "free regions survive serialization exactly (a region decoded with a wrong count would leak or duplicate pages after a reopen)", "id<2^55, count in [1,2^32)"),
          H("txfile.VerifFreelistSerialize", "multi-page free list round trip: the reopened file counts the same free pages", "<= 2 meta + 4 data regions", thorough={"params": {"meta": 3, "data": 5}, "max_paths": 200000, "budget": "1200s"}),
          H("txfile.VerifFault", "transactions that end with an I/O failure (failed Commit; Rollback after a failed Flush write) give every page back: allocator snapshot, space identity and stats unchanged", "nops=1",
@@ -161,6 +161,9 @@ prop("C16",
          H("txfile.VerifMetaOneByte", "Validate rejects a header with one changed byte", "offsets 0..7, 72..83 (quick) / 0..7, 64..83 (thorough)",
            thorough={"params": {"tail": 64}, "timeout_ms": 120000}),
          H("txfile.VerifFnvStep", "one step of hash/fnv 32a is injective in state and in byte", "all 2^32 states x 2^8 bytes"),
+         H("txfile.VerifMetaDamageThenCommit", "a damaged older header (any 64-bit value in its txid field, optionally any checksum) never influences later commits: commit numbers continue from the intact header, the newest commit wins after reopen",
+           "real file, 2 commits, damage, open, 1-2 commits, reopen; garbage txid/checksum fully symbolic"),
+         H("txfile.VerifCheckTruncate", "a commit never truncates below the extent of the previous commit (the state the other header describes stays readable if the newest header is damaged)", "all 64-bit markers/sizes < 2^40 pages"),
      ])
 
 # ------------------------------------------------------------------ C15
@@ -191,6 +194,8 @@ prop("C01", bounds=CRASH_BOUNDS,
                 OVERFLOW,
                 H("txfile.VerifFault", "a Commit that fails with an I/O error, further transactions, then a restart: the reopened file shows the last committed state (no mixture with the failed attempt, whose freed pages must not be re-used)",
                   "nops=1 quick / 2 thorough", quick={"params": {"nops": 1}}, thorough={"params": {"nops": 2}, "max_paths": 300000, "budget": "1500s"}),
+                H("txfile.VerifCheckTruncate", "checkTruncate never cuts below the extent of the last two transactions or the configured maximum", "all 64-bit markers/sizes < 2^40 pages"),
+                H("txfile.VerifMetaDamageThenCommit", "a torn / damaged older header does not influence the commits that follow a recovery", "garbage txid/checksum fully symbolic"),
                 H("txfile.VerifRegionRoundTrip", "recovery reads the free lists back exactly (a wrongly decoded region would let later transactions overwrite recovered pages)", "id<2^55, count in [1,2^32)"),
                 H("txfile.VerifFreelistSerialize", "multi-page free list round trip", "<= 2 meta + 4 data regions", thorough={"params": {"meta": 3, "data": 5}, "max_paths": 200000, "budget": "1200s"}),
                 ] + variants("txfile.VerifCrash", "recovery by the real Open code after a crash at any I/O boundary yields S or the complete S' (only once Commit was entered), recovered file fully operational",
@@ -218,7 +223,7 @@ prop("C08",
 # ------------------------------------------------------------------ C14
 prop("C14",
      bounds="file created with a 128-page limit (page size 1024), 2 written pages, 0 / 68 / 100 further allocated pages, optionally 3 pages freed (end of file and middle); "
-            "reopened with FlagUpdMaxSize and a limit of 64 / 96 / 160 pages or unbounded, with and without Prealloc; then 2 transactions (10 overwrites, 3 allocations), plain reopen",
+            "reopened with FlagUpdMaxSize and a limit of 64 / 96 / 160 pages or unbounded, with and without Prealloc, optionally with a write/sync/truncate/mmap/size failure at the 0..2nd call of that kind; then 2 transactions (10 overwrites, 3 allocations), plain reopen",
      outside="other size combinations and longer histories after the resize; the leaks O1/O2 of DESIGN.md section 4 (pages owned by nobody in the shrink transition) are not part of the statement",
      harnesses=[H("txfile.VerifResize", "data and root intact, no blocking, exact avail delta when growing, extent bound after shrinking, active header and plain reopen report the new limit (rounded down), "
                   "optional I/O failure during the update, second resize", "3 fills x 3 free patterns x 4 new limits (aligned/unaligned) x prealloc x {no fault, write, sync} x 3 ordinals x second limit",
@@ -358,5 +363,7 @@ prop("C18",
          H("txfile.VerifPathLock", "lock held exactly while a File is open; second Open fails with a lock error; after Close (also of a File whose commit failed) and after every failing Open the lock is free, no descriptor is left open, the path opens again", "3 steps x 7 step kinds",
            thorough={"params": {"steps": 4}, "max_paths": 400000, "budget": "1200s"}, replayable_params={"nofault": 1}, engine_replay=True),
          H("txfile.VerifPathLockWait", "FlagWaitLock: the second Open blocks until Close, then succeeds; a plain Open meanwhile fails", "2 goroutines"),
+         H("txfile.VerifPathLockResizeFail", "an Open that changes the maximum size (grow / shrink, with / without preallocation) and meets a write/sync/truncate/size/mmap failure returns; lock free and no descriptor left unless a File was returned; the path can be locked again",
+           "2 limits x prealloc x 6 kinds x 3 ordinals", engine_replay=True),
          H("txfile.VerifPathLockClose", "while File.Close waits for an active transaction the path lock stays held and a second Open fails", "read-only / write transaction"),
      ])
